@@ -86,21 +86,64 @@ impl Paths {
     pub uninterp spec fn files_dir_spec(&self) -> Seq<char>;
     /// crates/core/src/paths.rs:133 `with_account_id`: a fresh `Paths` for the
     /// account (`new_with_prefix(.., Some(account_id), ..)`), never global
+    /// the `Paths` value `with_account_id` builds: a function of `self` (server flag, documents
+    /// directory) and the account id
+    pub uninterp spec fn with_account_id_spec(&self, account_id: AccountId) -> Paths;
     #[verifier::external_body]
     pub fn with_account_id(&self, account_id: &AccountId) -> (r: Arc<Paths>)
-        ensures !r.is_global_spec(),
+        ensures !r.is_global_spec(), *r == self.with_account_id_spec(*account_id),
     { unimplemented!() }
 }
 
-/// crates/filesystem/src/archive/import.rs:235 `extract_files` — NOT under
+/// crates/filesystem/src/archive/import.rs:235 `extract_files` — body NOT under
 /// contract (zip entry iteration, `sanitize_file_path` = regex, OsStr path
 /// components: out of the verifier's reach; this is the third sentence of C18).
-/// Callee stand-in that assumes NOTHING about the file system (any files may
-/// have been created or overwritten when it returns, with Ok or with Err); the
-/// only thing assumed is that reading does not change the archive (ZIP-DET).
+/// Callee stand-in, contract read off the source (import.rs:235-289):
+///   for every index of the central directory in order: skip directory entries
+///   (`entry.dir()`: the name ends in '/'); `path = sanitize_file_path(name)`;
+///   if its first component is FILES_DIR and the second parses as a VaultId, the
+///   components after the first are joined to `relative`, `destination =
+///   paths.files_dir().join(relative)`, missing parent directories are created,
+///   `File::create(destination)` and the entry content is copied into it.
+/// `blob_relative(name)` = that `relative` (None: the entry is skipped) is an
+/// UNINTERPRETED function of the entry name: NOTHING is assumed about where the
+/// destination lies (path escape is not claimed here).  A later entry with the
+/// same destination overwrites an earlier one.  On Err any of the destinations
+/// may hold anything; no other regular file changes; directories only grow.
+/// Reading does not change the archive (ZIP-DET).
+pub uninterp spec fn blob_relative(name: Seq<char>) -> Option<Seq<char>>;
+pub open spec fn blob_target(files_dir: Seq<char>, name: Seq<char>) -> Option<Seq<char>> {
+    match blob_relative(name) { Some(rel) => Some(path_join(files_dir, rel)), None => None }
+}
+/// `q` is the destination of some entry of the listing
+pub open spec fn is_blob_target(files_dir: Seq<char>, l: Seq<(Seq<char>, Seq<u8>)>, q: Seq<char>) -> bool {
+    exists|i: int| 0 <= i < l.len() && blob_target(files_dir, (#[trigger] l[i]).0) == Some(q)
+}
+/// no later entry of the listing has the destination of entry `i`
+pub open spec fn blob_is_last(files_dir: Seq<char>, l: Seq<(Seq<char>, Seq<u8>)>, i: int) -> bool {
+    forall|j: int| i < j < l.len() ==> blob_target(files_dir, (#[trigger] l[j]).0) != blob_target(files_dir, l[i].0)
+}
+/// entry `i` of the listing (if it is an attachment blob and not overwritten later) is on disk with the archive's bytes
+pub open spec fn blob_written(f: FsV, files_dir: Seq<char>, l: Seq<(Seq<char>, Seq<u8>)>, i: int) -> bool {
+    blob_target(files_dir, l[i].0) matches Some(d) ==> (blob_is_last(files_dir, l, i) ==> f.files.contains_key(d) && f.files[d] == l[i].1)
+}
+/// every attachment blob of the listing is on disk below `files_dir` with the archive's bytes
+pub open spec fn blobs_written(f: FsV, files_dir: Seq<char>, l: Seq<(Seq<char>, Seq<u8>)>) -> bool {
+    forall|i: int| 0 <= i < l.len() ==> #[trigger] blob_written(f, files_dir, l, i)
+}
+/// between `a` and `b` only blob destinations of the listing changed; directories only grew
+pub open spec fn blobs_frame(a: FsV, b: FsV, files_dir: Seq<char>, l: Seq<(Seq<char>, Seq<u8>)>) -> bool {
+    &&& a.dirs.subset_of(b.dirs)
+    &&& forall|q: Seq<char>| !is_blob_target(files_dir, l, q) ==> (#[trigger] a.files.contains_key(q) <==> b.files.contains_key(q)) && (a.files.contains_key(q) ==> a.files[q] == b.files[q])
+}
 #[verifier::external_body]
 pub fn extract_files(fs: &mut Fs, reader: &mut ZipReader<BufReader<File>>, paths: &Paths) -> (r: ArchiveResult<()>)
-    ensures final(reader)@ == old(reader)@,
+    // import.rs:264 `paths.files_dir()` asserts !is_global (paths.rs:375)
+    requires !paths.is_global_spec(), /*@PL:paths_not_global*/
+    ensures
+        final(reader)@ == old(reader)@,
+        blobs_frame(old(fs)@, final(fs)@, paths.files_dir_spec(), old(reader)@.listing),
+        r is Ok ==> blobs_written(final(fs)@, paths.files_dir_spec(), old(reader)@.listing),
 { unimplemented!() }
 
 impl ToStringSpec for AccountId {
